@@ -1,5 +1,6 @@
 import TakVerif.Props.C06
 import TakVerif.Proofs.CmdAnalyze
+import TakVerif.Proofs.TakAlternating
 import TakVerif.Proofs.CmdCorpus
 
 /-!
@@ -68,11 +69,12 @@ object of `C06.pn_proven_sound`), for every `-prove` report the command prints (
 ghost flag of that run is up (see `Props/C06.lean`) —
 `WIN` ⇒ the side to move there has a forced win; the printed move is legal and keeps it;
 `DRAW|LOSE` ⇒ the side to move has no forced win (draws and repetitions count against it).
-`hg` are C06's standing assumptions on the game for the Tak instance (players alternate, fewer than 2³² moves per
-position); they are assumed here as in `Props/C06.lean`, not derived for `takGame`. -/
+Of C06's standing assumptions on the game (`GameOK`), alternation is PROVED for the Tak instance
+(`takGame_alternating'`, `Proofs/TakAlternating.lean`: `Position.Move` adds one to the ply counter and nothing else
+touches it) and the attacker is a colour; what remains assumed is `hsmall`: fewer than 2³² generated moves per position. -/
 theorem analyze_prove_sound (env : PTN.Env) (eng : Engines E) (f : Flags) (input : PTN.Bytes)
     (basis : Array W) (fuel : Nat) (heng : ∀ cfg p, eng.pn cfg p = Tak.PN.takProve basis fuel cfg p)
-    (p : Pos) (hg : GameOK (takGame basis) p.toMove) (out : Tak.PN.Result Move) (stats : Tak.PN.Stats)
+    (hsmall : SmallBranching (takGame basis)) (p : Pos) (out : Tak.PN.Result Move) (stats : Tak.PN.Stats)
     (hi : Item.pnResult p out stats ∈ (execute env eng f input).1) :
     ∃ st, proveState (takGame basis) p.toMove fuel (pnCfg f) p = .ok st ∧ readResult st = (out, stats) ∧
       (st.anomaly = false →
@@ -83,6 +85,7 @@ theorem analyze_prove_sound (env : PTN.Env) (eng : Engines E) (f : Flags) (input
   have hrep := (analyze_solver_reports env eng f input).1 p out stats hi
   rw [heng] at hrep
   unfold Tak.PN.takProve Tak.PN.prove at hrep
+  have hg : GameOK (takGame basis) p.toMove := ⟨takGame_alternating' basis, Tak.toMove_cases p, hsmall⟩
   cases hst : proveState (takGame basis) p.toMove fuel (pnCfg f) p with
   | error e => rw [hst] at hrep; cases hrep
   | ok st =>
